@@ -17,4 +17,5 @@ PROPERTY MainAdvancesByDt
 PROPERTY NitCountsMainSteps
 PROPERTY CallerFieldUntouched
 PROPERTY SaveIndexMonotone
+CONSTRAINT DevBound
 CHECK_DEADLOCK FALSE
